@@ -22,7 +22,7 @@ FILES = ["f%d" % i for i in range(16)]
 
 
 def prepare(build, tier):
-    return {"vi": build.vi_plain()}
+    return {"vi": build.vi_plain(), "src": build.src}
 
 
 def budget(tier):
@@ -82,8 +82,64 @@ def case(draw):
     return {"files": files, "steps": steps}
 
 
+# ---- the same isolation through vi mode: the vi shortcuts (^^ zj zk zD), :e / :b typed at the vi prompt, vi edits, and the per-buffer
+# cursor (line AND column), which only exists there
+VTOK = ["tok", "a b", "xy z", "q"]
+
+
+@st.composite
+def vicase(draw):
+    nf = draw(st.sampled_from([2, 3, 3, 4, 5]))
+    files = {}
+    for n in FILES[:nf]:
+        if draw(st.integers(0, 4)):
+            files[n] = ["%s.%d %s" % (n, i, draw(st.sampled_from(["", "alpha", "be ta", "  in"]))) for i in range(draw(st.integers(0, 5)))]
+    steps = []
+    for i in range(draw(st.integers(3, 30))):
+        k = draw(st.integers(0, 27))
+        f = draw(st.sampled_from(FILES[:nf]))
+        if k >= 25:
+            # round trip: move to a column, change the buffer, leave it unsaved, do something elsewhere, come back
+            steps.append(["mv", "|", draw(st.integers(2, 9))])
+            steps.append(draw(st.sampled_from([["ins", "o", "rt%d" % i], ["x"], ["dd"], ["put", "p"]])))
+            if draw(st.booleans()):
+                steps.append(["mv", draw(st.sampled_from(["w", "$", "k", "l"])), 0])
+            steps.append(["e", f, True])
+            if draw(st.booleans()):
+                steps.append(draw(st.sampled_from([["ins", "A", "z%d" % i], ["mv", "G", 0], ["yy"], ["w"], ["u"]])))
+            steps.append(draw(st.sampled_from([["e", FILES[0], True], ["b", "1"], ["e", f, True]])))
+            steps.append(["e", draw(st.sampled_from(FILES[:nf])), True])
+        elif k <= 3:
+            steps.append(["e", f, draw(st.booleans())])
+        elif k <= 6:
+            steps.append(["alt"])
+        elif k <= 8:
+            steps.append(["z", draw(st.sampled_from("jkjkD"))])
+        elif k == 9:
+            steps.append(["b", draw(st.sampled_from(["1", "2", "3", "4"]))])
+        elif k <= 12:
+            steps.append(["ins", draw(st.sampled_from("oOAi")), "%s%d" % (draw(st.sampled_from(VTOK)), i)])
+        elif k == 13:
+            steps.append(["x"])
+        elif k == 14:
+            steps.append(["dd"])
+        elif k == 15:
+            steps.append(["yy"])
+        elif k == 16:
+            steps.append(["put", draw(st.sampled_from("pP"))])
+        elif k <= 20:
+            key = draw(st.sampled_from(["j", "k", "w", "b", "$", "0", "|", "G", "l", "h", "e"]))
+            cnt = draw(st.integers(1, 12)) if key == "|" else draw(st.sampled_from([0, 0, 2, 3]))
+            steps.append(["mv", key, 0 if key == "0" else cnt])
+        elif k == 21:
+            steps.append(["u"])
+        else:
+            steps.append(["w"])
+    return {"kind": "vi", "files": files, "steps": steps}
+
+
 def strategy(tier):
-    return case()
+    return st.one_of(case(), case(), vicase())
 
 
 class MBuf:
@@ -237,6 +293,194 @@ class Model:
         raise ValueError(k)
 
 
+class VBuf:
+    def __init__(self, bid, path, lines, tables, regs):
+        from models import vim
+        self.id = bid
+        self.path = path
+        self.vi = vim.ViEd(list(lines), 24, tables)
+        self.vi.regs = regs
+        self.hist = [(list(lines), 0)]
+        self.cur = 0
+        self.nid = 1
+        self.saved_id = 0
+
+    def modified(self):
+        return self.hist[self.cur][1] != self.saved_id
+
+
+class VModel(Model):
+    """the buffer table of Model with a vi-mode editing model (models/vim.py) in every buffer; registers are shared"""
+
+    def __init__(self, disk, first, tables):
+        from models import vim
+        self.tables = tables
+        self.regs = vim.Regs()
+        Model.__init__(self, disk, first)
+
+    def open(self, path):
+        self.cnt += 1
+        b = VBuf(self.cnt, path, list(self.disk.get(path, [])), self.tables, self.regs)
+        self.bufs.insert(0, b)
+        return b
+
+    def vstep(self, s):
+        k = s[0]
+        c = self.cur()
+        v = c.vi
+        if k == "e":
+            r = self.edit_cmd(s[1], s[2])
+        elif k == "alt":
+            r = self.step(["e#", "", False])
+        elif k == "z":
+            r = self.step(["b", {"j": "+", "k": "-", "D": "!"}[s[1]]])
+        elif k == "b":
+            r = self.step(["b", s[1]])
+        elif k in ("ins", "x", "dd", "yy", "put"):
+            before = list(v.ln)
+            # CAL: x with nothing under the cursor (empty line / empty buffer) still splices the line by itself: no text change, but an
+            # undo step and a modified buffer
+            noop_step = k == "x" and (not v.ln or v.ln[v.row] == "")
+            if k == "ins":
+                v.insert(s[1], s[2])
+            elif k == "x":
+                v.operator("d", "", 0, 0, " ") or v.wfix()
+            elif k == "dd":
+                v.operator("d", "", 0, 0, "same") or v.wfix()
+            elif k == "yy":
+                v.operator("y", "", 0, 0, "same") or v.wfix()
+            else:
+                v.put(s[1], "", 0)
+            if v.ln != before or noop_step:
+                c.hist = c.hist[:c.cur + 1] + [(list(v.ln), c.nid)]
+                c.nid += 1
+                c.cur += 1
+            r = "ok"
+        elif k == "mv":
+            v.move(s[1], s[2], None)
+            r = "ok"
+        elif k == "u":
+            if c.cur > 0:
+                c.cur -= 1
+                v.ln = list(c.hist[c.cur][0])
+            v.move("G", 1)
+            v.move("0")
+            r = "ok"
+        elif k == "w":
+            self.disk[c.path] = list(v.ln)
+            c.saved_id = c.hist[c.cur][1]
+            r = "ok"
+        else:
+            raise ValueError(k)
+        nv = self.cur().vi
+        nv.wfix()
+        nv.col = nv.off2col(nv.row, nv.off)
+        return r
+
+
+def vkeys(s):
+    k = s[0]
+    if k == "e":
+        return ":e%s %s\n" % ("!" if s[2] else "", s[1])
+    if k == "alt":
+        return "\x1e"
+    if k == "z":
+        return "z" + s[1]
+    if k == "b":
+        return ":b %s\n" % s[1]
+    if k == "ins":
+        return s[1] + "\x05" + s[2] + "\x1b"
+    if k in ("x", "dd", "yy"):
+        return k
+    if k == "put":
+        return s[1]
+    if k == "mv":
+        return (str(s[2]) if s[2] else "") + s[1]
+    if k == "u":
+        return "u1G0"
+    if k == "w":
+        return ":w\n"
+    raise ValueError(k)
+
+
+_vt = {}
+
+
+def run_vicase(env, c):
+    from models import layout
+    from . import viutil
+    if "t" not in _vt:
+        _vt["t"] = layout.Tables(env.paths["src"])
+    d = env.fresh()
+    for n, ls in c["files"].items():
+        runner.write_file(d, n, gen.to_bytes(ls))
+    pre = VModel(c["files"], "f0", _vt["t"])
+    steps = []
+    for s in c["steps"]:
+        if s[0] == "z" and s[1] == "D" and len(pre.bufs) == 1:
+            s = ["mv", "0", 0]          # deleting the last buffer leaves an unnamed one that the observer would name
+        pre.vstep(s)
+        steps.append(s)
+    keys = [":se noaw\n:se nowa\n:se noai\n"]
+    for i, s in enumerate(steps):
+        keys.append(vkeys(s) + "\x1b:%%w! snap%d\n:1,.w! pos%d\n" % (i, i))
+    # (an insert into an empty buffer first creates a line in a step of its own, which the single u would not take back)
+    marker = bool(pre.cur().vi.ln)
+    keys.append(("\x1b\x1bi\x05" + viutil.MARK + "\x1b:%w! final\nu" if marker else "\x1b\x1b") + ":q\n:%w! afterq\n")
+    r = runner.run_editor(env.paths["vi"], ["-v", "f0"], "".join(keys).encode("utf-8") + runner.VI_TRAILER, d, rows=24, cols=100, want_stats=False)
+    if r.timeout:
+        return Outcome(True, False, ["vi", "timeout"], inconclusive=True)
+    if r.crashed():
+        return Outcome(False, False, ["vi", "crash"], detail={"why": "editor crashed", "sig": r.signature()})
+    m = VModel(c["files"], "f0", _vt["t"])
+    info = {"back_to_dirty": False, "shortcut": False, "left_dirty": set(), "col": False}
+
+    def fail(why, i, **kw):
+        det = {"why": why, "step": i, "steps": steps[:i + 1], "files": c["files"]}
+        det.update(kw)
+        return Outcome(False, False, ["vi"], detail=det)
+    for i, s in enumerate(steps):
+        prev = m.cur()
+        m.vstep(s)
+        if m.cur() is not prev:
+            if prev.modified():
+                info["left_dirty"].add(prev.path)
+            if m.cur().path in info["left_dirty"] and m.cur().modified():
+                info["back_to_dirty"] = True
+            if s[0] in ("alt", "z"):
+                info["shortcut"] = True
+            if m.cur().vi.off > 0:
+                info["col"] = True
+        v = m.cur().vi
+        snap = runner.read_file(d, "snap%d" % i)
+        if snap != gen.to_bytes(v.ln):
+            return fail("text of the buffer reached differs from the model", i, got=snap, want=gen.to_bytes(v.ln))
+        pos = runner.read_file(d, "pos%d" % i)
+        wantpos = gen.to_bytes(v.ln[:v.row + 1]) if v.ln else None
+        if pos != wantpos:
+            return fail("current line of the buffer reached differs from the model (line %d expected)" % (v.row + 1), i, got=pos, want=wantpos)
+    v = m.cur().vi
+    if marker:
+        v.ai = False
+        v.insert("i", viutil.MARK)
+        fin = runner.read_file(d, "final")
+        if fin != gen.to_bytes(v.ln):
+            return fail("cursor column of the buffer reached differs from the model (marker inserted at the cursor)", len(steps), got=fin, want=gen.to_bytes(v.ln))
+    # undo of the marker, then :q
+    cb = m.cur()
+    v.ln = list(cb.hist[cb.cur][0])
+    dirty = [b for b in m.bufs if b.modified()]
+    aq = runner.read_file(d, "afterq")
+    if bool(dirty) != (aq is not None):
+        return fail(":q %s although %d buffer(s) are modified" % ("refused" if aq is not None else "exited", len(dirty)), len(steps))
+    if dirty:
+        first = next(b for b in m.bufs if b.modified())
+        if aq != gen.to_bytes(first.vi.ln):
+            return fail(":q refused but the current buffer is not the first modified one", len(steps), got=aq, want=gen.to_bytes(first.vi.ln))
+    nt = len(m.bufs) >= 2 and info["back_to_dirty"] and info["shortcut"]
+    return Outcome(True, nt, ["vi", "vi_nbuf_%d" % min(len(m.bufs), 5)] + [("vi_" + k) for k in ("back_to_dirty", "shortcut", "col") if info[k]])
+
+
 def cmd_text(s):
     k = s[0]
     if k == "e":
@@ -263,6 +507,8 @@ def cmd_text(s):
 
 
 def run_case(env, c):
+    if c.get("kind") == "vi":
+        return run_vicase(env, c)
     d = env.fresh()
     for n, ls in c["files"].items():
         runner.write_file(d, n, gen.to_bytes(ls))
